@@ -50,6 +50,15 @@ def gen_case(rng, tier, idx):
         tf, tf_s, step = None, None, 60
     n = rng.randint(30, 90)
     rows = streams.make_rows(rng, n, rng.choice(["walk", "flat_runs", "zero_vol"]), step, rng.choice(["regular", "jitter"]), tf_s)
+    if rng.random() < 0.2:
+        from datetime import datetime, timedelta
+        prev = None
+        for r in rows:  # sub-second timestamps: every encoding (ISO strings included) must carry them through unchanged
+            t = datetime.fromisoformat(r[0]) + timedelta(microseconds=rng.choice([0, 250000, 999999, 123456]))
+            if prev is not None and t < prev:
+                t = prev
+            prev = t
+            r[0] = t.isoformat()
     members = [configs.rand_config(rng, max_period=8, allow_input=False) for _ in range(rng.randint(1, 3) if hexital else 1)]
     if hexital:
         for c in members[1:]:
